@@ -435,6 +435,54 @@ Proof.
 Qed.
 Print Assumptions cut_of_is_kth.
 
+(* ---------- (c) without a boundary tie the legal set is unique and has a closed form ---------- *)
+(* no distance tie across the cut: exactly n_keep channels are within the cut distance *)
+Definition NoTie (d : dset) (b : nat) : Prop :=
+  zcount (fun ch => dist_of d b ch <=? cut_of d b) (zrange 0 (n_channels d)) = Z.of_nat (n_keep d).
+
+Lemma Nearest_no_tie d b S : NoTie d b -> Nearest d b S ->
+  forall ch, In ch S <-> is_chan d ch /\ dist_of d b ch <= cut_of d b.
+Proof.
+  intros Ht HN ch. split.
+  - intros Hin. split; [exact (nr_chan d b S HN ch Hin)|exact (nr_within d b S HN ch Hin)].
+  - intros [Hc Hw].
+    set (T := filter (fun ch => dist_of d b ch <=? cut_of d b) (zrange 0 (n_channels d))).
+    assert (HST : incl S T).
+    { intros x Hx. apply filter_In. pose proof (nr_chan d b S HN x Hx) as Hxc.
+      pose proof (nr_within d b S HN x Hx) as Hxw. unfold is_chan in Hxc.
+      split; [apply zrange_in; lia|lia]. }
+    assert (HTS : incl T S).
+    { apply NoDup_length_incl; [exact (nr_nodup d b S HN)| |exact HST].
+      rewrite (nr_len d b S HN). unfold NoTie, zcount in Ht. fold T in Ht. lia. }
+    apply HTS. apply filter_In. unfold is_chan in Hc. split; [apply zrange_in; lia|lia].
+Qed.
+
+(* without a tie a legal list is, as a set, { channels on the peak's shank within the cut distance }:
+   all legal lists of a template have the same elements *)
+Theorem legal_chans_no_tie d unw t chans : legal_chans d unw t chans = true ->
+  exists b, peak_chan d unw t = Some b /\
+            (NoTie d b -> NoDup chans /\
+               forall ch, In ch chans <->
+                          is_chan d ch /\ on_shank_b d b ch = true /\ dist_of d b ch <= cut_of d b).
+Proof.
+  intros H. apply legal_chans_sound in H. destruct H as (b & Hp & HL). exists b.
+  split; [exact Hp|]. intros Ht. split; [exact (lg_nodup d b chans HL)|].
+  destruct (lg_count d b chans HL) as (S & HN & Hiff). intros ch.
+  rewrite Hiff, (Nearest_no_tie d b S Ht HN). tauto.
+Qed.
+Print Assumptions legal_chans_no_tie.
+
+Corollary legal_chans_unique d unw t c1 c2 b : peak_chan d unw t = Some b -> NoTie d b ->
+  legal_chans d unw t c1 = true -> legal_chans d unw t c2 = true -> forall ch, In ch c1 <-> In ch c2.
+Proof.
+  intros Hp Ht H1 H2 ch.
+  apply legal_chans_no_tie in H1. destruct H1 as (b1 & Hp1 & H1).
+  apply legal_chans_no_tie in H2. destruct H2 as (b2 & Hp2 & H2).
+  rewrite Hp in Hp1, Hp2. injection Hp1 as <-. injection Hp2 as <-.
+  destruct (H1 Ht) as [_ E1]. destruct (H2 Ht) as [_ E2]. rewrite E1, E2. tauto.
+Qed.
+Print Assumptions legal_chans_unique.
+
 (* ---------- non-vacuity: the 16-channel linear probe of Corr.ex_line, peak 8, tie between channels 2 and 14 ---------- *)
 Example ex_line_sound :
   peak_chan ex_line false 0 = Some 8%nat /\ cut_of ex_line 8 = 14400 /\
